@@ -50,14 +50,29 @@ def mutate(tokens, rnd):
     return t
 
 
+def _again(r):
+    """the error contract holds for EVERY accessor of a runner whose evaluation failed, not only for the first use"""
+    for use in (lambda: r.source_tables, lambda: r.get_column_lineage(), lambda: str(r), lambda: r.to_cytoscape()):
+        try:
+            use()
+        except SQLLineageException:
+            pass
+        except RecursionError:
+            pass
+        except Exception as e:
+            return "after-failed-run:" + type(e).__name__
+    return None
+
+
 def run(sql, dialect, silent=False):
+    r = None
     try:
         r = LineageRunner(sql, dialect=dialect, silent_mode=silent)
         r._eval()
         r.source_tables, r.target_tables, r.intermediate_tables, r.get_column_lineage(), str(r)
         return None
     except SQLLineageException:
-        return None
+        return _again(r) if r is not None else None
     except RecursionError:
         return None
     except Exception as e:
